@@ -1,6 +1,6 @@
 ENGINES = [
     {'name': 'mirsym', 'path': '/verif/mirsym',
-     'serves_properties': ['C01', 'C12', 'C17', 'C18', 'C19'],
+     'serves_properties': ['C01', 'C12', 'C16', 'C17', 'C18', 'C19'],
      'kind_free_text': 'symbolic executor over the MIR that rustc emits for /repo\'s working tree (regenerated per tree state); std modelled at the call boundary; z3 QF_BV decides every branch and every obligation; counterexamples replayed natively through /verif/replay'},
 ]
 NOTES = 'Every check: exit 0 = held for all inputs inside the stated bounds (KNOWN-FINDING lines allowed); exit 1 = natively reproducing violation; exit 2 = inconclusive (unsupported construct, solver unknown, model/native mismatch, vacuous harness) and is never reported as a pass.'
@@ -36,11 +36,17 @@ CHECKS['C12'] = {
     'note': 'oracle = the list of configuration dimensions C12 names, with git\'s last-option-wins rule; which call sites use which profile is not decided; discovery (K3) not encoded',
     'technique': 'MIR symbolic execution + z3 (bounded), native replay',
 }
+CHECKS['C16'] = {
+    'text': 'Bounded symbolic execution of the real tracker (update_attributions end to end, the line projection and its inverse, the tokenizer) over symbolic texts: no panic, every output range inside the new text on char boundaries, identical text keeps every line\'s author, byte-identical leading/trailing lines keep their author, text added to an empty file belongs to the reporting author, the line projection equals a reference reading of the property (latest substantive attribution wins), lines->chars->lines is the identity on AI lines, tokens are ordered, disjoint, non-blank and cover every non-blank byte. Counterexamples are replayed against the compiled code.',
+    'design_ref': 'DESIGN.md §4 C16',
+    'note': 'imara-diff replaced at its API by a reference LCS (one valid minimal script per equality pattern); texts are a few symbolic bytes over small alphabets plus multi-byte/CRLF templates; previous attributions come from 9 fixed layouts (incl. unsorted, overlapping, zero-length, out of range)',
+    'technique': 'MIR symbolic execution + z3 (bounded), reference-model differential, native replay',
+}
 _PENDING = 'check not built yet in this round (under construction; see DESIGN.md §4)'
 NOT_APPLICABLE = {
     'C02': _PENDING, 'C03': _PENDING, 'C04': _PENDING, 'C05': _PENDING, 'C06': _PENDING,
     'C07': _PENDING, 'C08': _PENDING, 'C09': _PENDING, 'C14': _PENDING, 'C15': _PENDING,
-    'C16': _PENDING, 'C20': _PENDING,
+    'C20': _PENDING,
     'C10': 'convergence of notes across clones is decided by git\'s notes-merge / ref-transaction semantics over several repositories; git-ai\'s part is a fixed sequence of subprocess calls with no branch the solver could decide (DESIGN.md §7)',
     'C11': 'interleavings of processes over a file system and git ref locks; neither Kani nor the MIR executor models OS-level concurrency (DESIGN.md §7)',
     'C13': 'equivalence of two drivers of one state machine under sequences of real git operations; no input can be made symbolic without modelling git\'s rebase/cherry-pick/stash sequencing (DESIGN.md §7)',
